@@ -19,9 +19,44 @@ def _idx(off):
     return f'[{off}]' if off < 0 else f'[+{off}]' if off % 2 else f'[{off}]'
 
 
+FANCY = {
+    'A': ['is_open', 'Alpha_1', 'not_A', 'exp_rate', 'a_very_long_variable_name_for_output'],
+    'B': ['Pin', 'or_B', 'log_b', 'B2', 'b_'],
+    'C': ['if_C', 'C_c', 'max_c', 'lambda_', 'Cons'],
+    'D': ['None_d', 'D1', 'min_d', 'and_D', 'dd'],
+    'X': ['in_X', 'X_1', 'abs_x', 'Xx', 'x'],
+    'Z': ['else_Z', 'Z9', 'sqrt_z', 'zeta', 'np_z'],
+    'W': ['while_W', 'W_', 'w2', 'True_w', 'self_w'],
+    'a': ['alpha_1', 'is_a', 'a1', 'for_a', 'aa'],
+    'b': ['beta', 'not_b', 'b_2', 'in_b', 'bb'],
+    'e': ['err_1', 'if_err', 'e_', 'eps', 'or_e'],
+}
+
+
 def gen_program(rng, max_eq=4, max_lag=3, max_lead=3, allow_funcs=True):
+    prog = _gen_program(rng, max_eq, max_lag, max_lead, allow_funcs)
+    if rng.random() < 0.35:
+        # the same program under other names: several letters, digits, underscores, prefixes that are Python keywords or the
+        # names of functions the parser knows (whole-word substitution on a script made of single-letter names)
+        import re
+
+        k = rng.randrange(5)
+        ren = {nm: FANCY[nm][k] for nm in prog['names'] if nm in FANCY}
+        pat = re.compile(r'(?<![A-Za-z0-9_.])(' + '|'.join(sorted(map(re.escape, ren), key=len, reverse=True)) + r')(?![A-Za-z0-9_(])') if ren else None
+        if pat is not None:
+            prog['script'] = pat.sub(lambda m: ren[m.group(1)], prog['script'])
+            prog['endo'] = [ren.get(x, x) for x in prog['endo']]
+            prog['names'] = [ren.get(x, x) for x in prog['names']]
+            prog['reads'] = {ren.get(k_, k_): v_ for k_, v_ in prog['reads'].items()}
+            prog['params'] = [ren.get(x, x) for x in prog['params']]
+            prog['errs'] = [ren.get(x, x) for x in prog['errs']]
+    return prog
+
+
+def _gen_program(rng, max_eq=4, max_lag=3, max_lead=3, allow_funcs=True):
     n_eq = rng.randint(1, max_eq)
     endo = ENDO[:n_eq]
+    rich = rng.random() < 0.4  # parentheses, powers, unary minus, conditional expressions, other functions, layout
     reads = {}
     order = []  # first-appearance order is not needed; names are taken from the built class
     lines = []
@@ -64,6 +99,23 @@ def gen_program(rng, max_eq=4, max_lag=3, max_lead=3, allow_funcs=True):
         return nm
 
     def term():
+        if rich:
+            q = rng.random()
+            if q < 0.12:
+                return f'({term_plain()} + {term_plain()})'
+            if q < 0.2:
+                return f'({atom(False)}) ** 2'
+            if q < 0.28:
+                return f'-{atom(False)}'
+            if q < 0.34 and allow_funcs:
+                return f'abs({atom(False)})'
+            if q < 0.4 and allow_funcs:
+                return f'np.sqrt(abs({atom(False)}))'
+            if q < 0.48:
+                return f'({atom(False)} if {atom(False)} > {rng.choice(COEFS)} else {atom(False)})'
+        return term_plain()
+
+    def term_plain():
         r = rng.random()
         if r < 0.45:
             return f'{rng.choice(COEFS)} * {atom(False)}'
@@ -87,7 +139,14 @@ def gen_program(rng, max_eq=4, max_lag=3, max_lead=3, allow_funcs=True):
         expr = term()
         for _ in range(k - 1):
             expr += rng.choice([' + ', ' + ', ' - ']) + term()
-        lines.append(f'{v} = {expr}')
+        if rich and rng.random() < 0.3 and ' + ' in expr:
+            # a statement spread over several lines inside parentheses, with a comment
+            head, tail = expr.split(' + ', 1)
+            lines.append(f'{v} = ({head}\n      + {tail})  # {v}, spread over two lines')
+        else:
+            lines.append(f'{v} = {expr}' + ('  # a comment' if rich and rng.random() < 0.2 else ''))
+        if rich and rng.random() < 0.2:
+            lines.append('')
     lags = max([0] + [-o for s in reads.values() for o in s])
     leads = max([0] + [o for s in reads.values() for o in s])
     names = [x for x in endo] + [x for x in order if x not in endo]
@@ -98,6 +157,8 @@ def gen_program(rng, max_eq=4, max_lag=3, max_lead=3, allow_funcs=True):
         'reads': {k: sorted(v) for k, v in sorted(reads.items())},
         'lags': lags,
         'leads': leads,
+        'params': [x for x in names if x in PARAMS],
+        'errs': [x for x in names if x in ERRS],
     }
 
 
@@ -105,10 +166,10 @@ def gen_data(rng, prog, n):
     vals = [0.5, 1.0, 1.5, 2.0, 0.25, 3.0, 0.75]
     out = {}
     for nm in prog['names']:
-        if nm in PARAMS:
+        if nm in prog.get('params', PARAMS):
             v = rng.choice([0.25, 0.5, 0.125, 0.75])
             out[nm] = [v] * n
-        elif nm in ERRS:
+        elif nm in prog.get('errs', ERRS):
             out[nm] = [rng.choice([0.0, 0.0, 0.125, -0.125]) for _ in range(n)]
         else:
             out[nm] = [rng.choice(vals) for _ in range(n)]
